@@ -49,11 +49,13 @@ Near(d, wr, i, j) == /\ Abs(CZ(d, i) - CZ(d, j)) <= wr[1]
                      /\ Abs(CY(d, i) - CY(d, j)) <= wr[2]
                      /\ Abs(CX(d, i) - CX(d, j)) <= wr[3]
 
-(* A prior instance p: [dims, wr, st (= Stencil(wr, w)), kappa (<<>> = none), beta, gamma, eps] *)
+(* A prior instance p: [dims, wr, st (= Stencil(wr, w)), nb (= NbTable(dims, st)), kappa (<<>> = none), beta, gamma, eps] *)
 \* neighbours of voxel i INSIDE the image: <<voxel, weight>>
-Nb(p, i) ==
-  LET d == p.dims  z == CZ(d, i)  y == CY(d, i)  x == CX(d, i) IN
-  { <<Idx(d, z + s[1], y + s[2], x + s[3]), s[4]>> : s \in { t \in p.st : InGrid(d, z + t[1], y + t[2], x + t[3]) } }
+NbOf(d, st, i) ==
+  LET z == CZ(d, i)  y == CY(d, i)  x == CX(d, i) IN
+  { <<Idx(d, z + s[1], y + s[2], x + s[3]), s[4]>> : s \in { t \in st : InGrid(d, z + t[1], y + t[2], x + t[3]) } }
+NbTable(d, st) == [i \in Vox(d) |-> NbOf(d, st, i)]
+Nb(p, i) == p.nb[i]      \* memoised in the instance (TLC re-evaluates operator applications at every use)
 K(p, i) == IF p.kappa = <<>> THEN 1 ELSE p.kappa[i]
 KK(p, i, j) == K(p, i) * K(p, j)
 Bump(x, i, h) == [x EXCEPT ![i] = @ + h]
